@@ -46,7 +46,7 @@ REACH = {
         "startup_loss_same_iteration_as_timeout", "numbering_restarted_checked", "clean_close_while_waiting",
         "numbering_checked_after_reset", "numbering_checked_after_startup", "second_request_judged",
         "request_after_a_timed_out_request_completed", "ncp_frame_between_rst_and_rstack", "rst_write_failed",
-        "host_frame_pending_at_reset", "queued_frame_numbered_from_zero"]
+        "host_frame_pending_at_reset", "queued_frame_numbered_from_zero", "old_frame_retransmitted_between_rst_and_rstack"]
     for t in ("quick", "thorough")
 }
 SOFTWARE = 0x0B
@@ -168,6 +168,9 @@ def run_case(case):
                 return R.encode_rstack(code)
             if what == "ack":
                 return R.encode_ack(code)
+            if what == "dup":
+                # the NCP retransmits the frame the host already took (its ACK got lost)
+                return R.encode_data(code, 1, 0, b"cb%d" % ((case["rx"] - 1) if case["rx"] else 0))
             # a DATA frame of the NCP that was already on its way when the host asked for the reset
             return R.encode_data(code, 0, 0, b"in-flight")
 
@@ -422,6 +425,16 @@ def judge_one(case, tr, info, reset_timeout):
                             f"DATA frames written after the RSTACK carry numbers {frms}, expected 0, 1, 2, ..."))
             elif frms:
                 facts.add("queued_frame_numbered_from_zero" if case["pending"] == 2 else "numbering_checked_with_pending_frame")
+    seen_up = {}
+    for e in tr:
+        if e[0] == "app_frame" and e[2].startswith(b"cb"):
+            seen_up[e[2]] = seen_up.get(e[2], 0) + 1
+    for pl, n_ in seen_up.items():
+        if n_ > 1:
+            bad.append(("C11/numbering/old-frame-delivered-again",
+                        f"payload {pl!r}, already handed up before the reset was requested, was handed up {n_} times"))
+    if any(what == "dup" for w, what, c in case["script"]) and not any(n_ > 1 for n_ in seen_up.values()):
+        facts.add("old_frame_retransmitted_between_rst_and_rstack")
     # numbering after a completed handshake
     pc = next((e for e in tr if e[0] == "post_check"), None)
     if pc is not None:
@@ -537,6 +550,10 @@ def gen_cases(tier, seed):
     for (i, j) in (pairs if tier == "thorough" else ntx + [(0, 1), (2, 0), (5, 3)]):
         for frm in sorted({j, 0, (j + 1) % 8}):
             cases.append({"waiter": "reset", "tx": i, "rx": j, "script": [("in0", "data", frm), ("in", "rstack", SOFTWARE)]})
+    # F2. ... or the NCP retransmits, between RST and RSTACK, the frame the host had already taken
+    for (i, j) in [(0, 1), (3, 1), (5, 1), (2, 2), (7, 7), (4, 8 - 3)]:
+        cases.append({"waiter": "reset", "tx": i, "rx": j, "script": [("in0", "dup", (j - 1) % 8), ("in", "rstack", SOFTWARE)]})
+        cases.append({"waiter": "reset", "tx": i, "rx": j, "script": [("in0", "dup", (j - 1) % 8)], "then": [{"script": [("in", "rstack", SOFTWARE)]}]})
     # G. completed start-up wait after prior traffic, all counter pairs
     for (i, j) in (pairs if tier == "thorough" else pairs[::5]):
         cases.append({"waiter": "startup", "tx": i, "rx": j, "script": [("in", "rstack", SOFTWARE)]})
